@@ -683,8 +683,55 @@ class Inliner:
                 if isinstance(n, ast.Name):
                     names.add(n.id)
         h.inlined += 1
+        self._ensure_imports(mod, h, out)
         self.log.append(f"{h.key}: inlined (statement) at {mod}:{getattr(s, 'lineno', 0)}")
         return out
+
+    def _ensure_imports(self, mod: str, h: Helper, nodes) -> None:
+        """code moved across modules keeps meaning: a global name the helper's module binds and the caller's module does not is
+        imported into the caller's module the way the helper's module got it"""
+        if h.module == mod:
+            return
+        src, dst = self.modules[h.module], self.modules[mod]
+
+        def top_bindings(tree):
+            out = {}
+            for st in tree.body:
+                if isinstance(st, (ast.Import, ast.ImportFrom)):
+                    for a in st.names:
+                        out[a.asname or a.name.split(".")[0]] = (st, a)
+                elif isinstance(st, (ast.FunctionDef, ast.ClassDef, ast.AsyncFunctionDef)):
+                    out[st.name] = (st, None)
+                elif isinstance(st, (ast.Assign, ast.AnnAssign)):
+                    for t in (st.targets if isinstance(st, ast.Assign) else [st.target]):
+                        if isinstance(t, ast.Name):
+                            out[t.id] = (st, None)
+                elif isinstance(st, (ast.Try, ast.If)):
+                    for sub in ast.walk(st):
+                        if isinstance(sub, (ast.Import, ast.ImportFrom)):
+                            for a in sub.names:
+                                out.setdefault(a.asname or a.name.split(".")[0], (sub, a))
+            return out
+
+        have, there = top_bindings(dst), top_bindings(src)
+        wanted = {n.id for x in nodes for n in ast.walk(x) if isinstance(n, ast.Name) and isinstance(n.ctx, ast.Load)}
+        pos = 0
+        for i, st in enumerate(dst.body):
+            if (isinstance(st, ast.Expr) and isinstance(st.value, ast.Constant)) or (isinstance(st, ast.ImportFrom) and st.module == "__future__"):
+                pos = i + 1
+        for name in sorted(wanted - set(have)):
+            if name not in there:
+                continue
+            st, alias = there[name]
+            if alias is not None and isinstance(st, ast.ImportFrom):
+                new = ast.ImportFrom(module=st.module, names=[ast.alias(name=alias.name, asname=alias.asname)], level=st.level)
+            elif alias is not None:
+                new = ast.Import(names=[ast.alias(name=alias.name, asname=alias.asname)])
+            else:
+                new = ast.ImportFrom(module=h.module[:-3].replace("/", "."), names=[ast.alias(name=name, asname=None)], level=0)
+            new.lineno = new.col_offset = 0
+            dst.body.insert(pos, ast.fix_missing_locations(new))
+            self.log.append(f"{mod}: import of `{name}` added for code inlined from {h.module}")
 
     def _split_boolop(self, s: ast.If, mod, enclosing):
         """`if a or H(x): B else: C` with a helper H that has no expression form  ->  `if a: B else: (if H(x): B else: C)`
@@ -778,6 +825,7 @@ class Inliner:
                         ast.copy_location(x, n)
                 h.inlined += 1
                 count += 1
+                outer._ensure_imports(mod, h, [new])
                 outer.log.append(f"{h.key}: inlined (expression) at {mod}:{getattr(n, 'lineno', 0)}")
                 return new
 
